@@ -122,12 +122,23 @@ class ExprMixin:
     def construct_into(self, n, dest):
         L = self.L
         t = self.ty(n)
-        if t[0] == 'arr':
-            self.err(n, 'array construction in expression')
+        while t[0] == 'arr':
+            t = t[1]      # element-wise construction: dest points at one element (see init_array)
         rec = L.rec_of_type(t)
-        if rec is None:
-            self.err(n, 'constructor of non-record type')
         args = [c for c in kids(n) if c]
+        if rec is None and t[0] == 'base' and t[2].get('empty_std'):
+            return
+        if rec is None:
+            # std::atomic<T> members lower to plain T (sequential model): construction is initialisation
+            if 'atomic' in (n.get('type', {}).get('qualType', '')):
+                if not args:
+                    self.hoist('*%s = 0;' % dest)
+                    return
+                if len(args) == 1:
+                    e = self.expr(args[0])
+                    self.hoist('*%s = %s;' % (dest, e.s))
+                    return
+            self.err(n, 'constructor of non-record type')
         ctor = self.find_ctor(rec, n)
         trivial_copy = False
         if ctor is None:
@@ -192,6 +203,9 @@ class ExprMixin:
         items = [c for c in kids(n) if c]
         if rec is None:
             self.err(n, 'init list for non-record')
+        if len(items) == 1 and not is_ref(self.ty(items[0])) and self.L.rec_of_type(self.ty(items[0])) is rec:
+            # T{expr-of-type-T}: copy/move initialisation, not aggregate initialisation
+            return self.expr_into(items[0], dest)
         if rec.is_union:
             if items:
                 fd = n.get('field')
@@ -210,6 +224,10 @@ class ExprMixin:
         if len(items) > len(slots):
             self.err(n, 'too many initializers')
         for it, sl in zip(items, slots):
+            if it.get('kind') == 'CXXDefaultInitExpr' and sl[0] == 'field':
+                for fl in rec.fields:
+                    if fl[0] == sl[1]:
+                        it = self.field_default_init(rec, fl[1]['id'], it)
             if sl[0] == 'base':
                 br, bf = sl[1], sl[2]
                 p = '(&%s->%s)' % (dest, bf) if bf else '((struct %s *)%s)' % (br.cname, dest)
@@ -309,7 +327,21 @@ class ExprMixin:
         return E('1' if n.get('value') in (True, 'true') else '0')
 
     def ex_SizeOfPackExpr(self, n):
-        self.err(n, 'sizeof... outside constant expression')
+        """sizeof...(Pack) in an instantiation: the pack length is read off the enclosing specialization"""
+        L = self.L
+        cands = []
+        node = self.f.node
+        while node is not None:
+            packs = [a for a in node.get('inner', ()) if a.get('kind') == 'TemplateArgument' and a.get('isPack')]
+            for a in packs:
+                cands.append(len([c for c in a.get('inner', ()) if c.get('kind') == 'TemplateArgument']))
+            if packs:
+                break
+            pid = node.get('parentDeclContextId')
+            node = L.ix.by_id.get(pid) if pid in L.ix.by_id else L.ix.parent.get(node.get('id'))
+        if len(cands) == 1:
+            return E('((size_t)%d)' % cands[0])
+        self.err(n, 'sizeof...(%s): cannot determine the pack length (%d candidate packs)' % (n.get('name'), len(cands)))
 
     def ex_ConceptSpecializationExpr(self, n):
         self.err(n, 'concept check outside constant expression')
@@ -363,6 +395,9 @@ class ExprMixin:
 
     def ex_MaterializeTemporaryExpr(self, n):
         c = kids(n)[0]
+        lam = self._find_lambda(c)
+        if lam is not None:
+            return self.ex_LambdaExpr(lam)
         t = self.ty(n)
         rec = self.L.rec_of_type(t)
         if rec is not None and t[0] == 'base':
@@ -384,6 +419,9 @@ class ExprMixin:
             if isref:
                 return deref(nm)
             return E(nm)
+        cap = self.captured(i)
+        if cap is not None:
+            return cap
         if k == 'EnumConstantDecl':
             return E(self.enum_constant(rd))
         if k in ('FunctionDecl', 'CXXMethodDecl'):
@@ -423,6 +461,8 @@ class ExprMixin:
         L = self.L
         full = L.ix.by_id.get(rd['id'])
         if full is None:
+            if rd.get('name', '').startswith('memory_order_'):
+                return E('FRGV_' + rd['name'].upper())
             self.err(n, 'reference to global %s outside the AST filter' % rd.get('name'))
         g = L.global_of(full)
         t = L.ty(full['type'])
@@ -431,7 +471,27 @@ class ExprMixin:
         return E(g)
 
     def ex_CXXThisExpr(self, n):
+        rec = self.f.rec
+        if rec is not None and rec.is_lambda:
+            # inside a lambda body 'this' always denotes the captured enclosing object
+            cap = self.captured('this')
+            if cap is None:
+                self.err(n, "'this' used in a lambda that does not capture it")
+            return cap
         return E('this')
+
+    def captured(self, key):
+        """lvalue for a captured entity inside a lambda's operator()"""
+        rec = self.f.rec
+        if rec is None or not rec.is_lambda:
+            return None
+        k = getattr(rec, 'captures', {}).get(key)
+        if k is None:
+            return None
+        fname, fn, ft = rec.fields[k]
+        if is_ref(ft):
+            return deref('this->%s' % fname)
+        return E('this->%s' % fname)
 
     def ex_MemberExpr(self, n):
         L = self.L
@@ -622,6 +682,10 @@ class ExprMixin:
         self.hoist('}')
         return deref(r) if lv else E(r)
 
+    def ex_CXXRewrittenBinaryOperator(self, n):
+        cs = [c for c in kids(n) if c]
+        return self.expr(cs[0])       # the semantic form, e.g. !(a == b) for a != b
+
     def ex_BinaryConditionalOperator(self, n):
         self.err(n, 'GNU ?: operator')
 
@@ -655,10 +719,15 @@ class ExprMixin:
 
     def ex_InitListExpr(self, n):
         t = self.ty(n)
+        items = [c for c in kids(n) if c]
+        if n.get('valueCategory') in ('lvalue', 'xvalue') and len(items) == 1:
+            return self.expr(items[0], want_lvalue=True)     # reference bound through braces
         rec = self.L.rec_of_type(t)
         if rec is not None:
             return self.materialize(n, t)
         cs = [c for c in kids(n) if c]
+        if t[0] == 'base' and t[2].get('empty_std'):
+            return E('((struct frgv_std_empty){0})')
         if t[0] != 'arr' and len(cs) == 1:
             return self.expr(cs[0])
         if t[0] != 'arr' and not cs:
@@ -673,6 +742,9 @@ class ExprMixin:
         return self.materialize(n, t)
 
     def ex_CXXConstructExpr(self, n):
+        t = self.ty(n)
+        if t[0] == 'base' and t[2].get('empty_std'):
+            return E('((struct frgv_std_empty){0})')
         return self.materialize(n)
 
     ex_CXXTemporaryObjectExpr = ex_CXXConstructExpr
@@ -688,6 +760,9 @@ class ExprMixin:
         L = self.L
         ck = n.get('castKind')
         c = [x for x in kids(n) if x][-1]
+        if ck in ('LValueToRValue', 'NoOp', 'FunctionToPointerDecay', 'ArrayToPointerDecay', 'BuiltinFnToFnPtr',
+                  'AtomicToNonAtomic', 'NonAtomicToAtomic', 'ConstructorConversion', 'UserDefinedConversion'):
+            return self.expr(c)
         t = self.ty(n)
         if ck in ('LValueToRValue', 'NoOp', 'FunctionToPointerDecay', 'ArrayToPointerDecay', 'BuiltinFnToFnPtr',
                   'AtomicToNonAtomic', 'NonAtomicToAtomic'):
@@ -751,6 +826,8 @@ class ExprMixin:
         L = self.L
         rec, isptr = self._src_record(c)
         if rec is None:
+            if 'atomic' in c.get('type', {}).get('qualType', ''):
+                return self.expr(c)      # std::atomic<T> -> std::__atomic_base<T>: same scalar in the model
             self.err(n, 'derived-to-base on non-record')
         e = self.expr(c)
         tgt = L.rec_of_type(t[1]) if t[0] == 'ptr' else L.rec_of_type(t)
@@ -763,8 +840,11 @@ class ExprMixin:
             p = addr(e)
         cur = rec
         for br, bf in path:
-            if bf is None:
+            if bf is None or (bf == '__b0' and isptr):
+                # empty base, or first base subobject (offset 0): a pointer cast, which also preserves null
                 p = '((struct %s *)%s)' % (br.cname, p)
+            elif isptr:
+                self.err(n, 'pointer conversion to a base at non-zero offset')
             else:
                 p = '(&%s->%s)' % (self.paren(p), bf)
         if isptr:
@@ -816,11 +896,15 @@ class ExprMixin:
             self.err(n, 'array new')
         t = self.ty(n)      # pointer to the allocated type
         obj_t = t[1]
-        # children: placement args..., [initializer]
-        place = cs[0]
-        init = cs[-1] if len(cs) > 1 and cs[-1] is not place else None
-        if len(cs) > 2:
-            self.err(n, 'placement new with several placement arguments')
+        # children in clang's order: [array size], [initializer], placement arguments...
+        init = None
+        rest = cs
+        if 'initStyle' in n or (len(cs) == 2 and cs[0].get('kind') == 'CXXConstructExpr'):
+            init = cs[0]
+            rest = cs[1:]
+        if len(rest) != 1:
+            self.err(n, 'placement new with %d placement arguments' % len(rest))
+        place = rest[0]
         pe = self.expr(place)
         p = self.uniq(self.tmp('__n'))
         self.hoist('%s = (%s)%s;' % (cdecl(t, p), cdecl(t), pe.s))
@@ -859,10 +943,14 @@ class ExprMixin:
         while c.get('kind') in ('ImplicitCastExpr', 'ParenExpr'):
             c = kids(c)[0]
         if c.get('kind') == 'DeclRefExpr':
+            if c['referencedDecl'].get('kind') in ('VarDecl', 'ParmVarDecl', 'FieldDecl', 'BindingDecl'):
+                return None, None, False, c      # call through a function pointer variable
             return c['referencedDecl'], None, False, c
         if c.get('kind') == 'MemberExpr':
             mid = c.get('referencedMemberDecl')
             md = self.L.ix.by_id.get(mid) or {'id': mid, 'name': c.get('name'), 'kind': 'CXXMethodDecl', 'external': True}
+            if md.get('kind') in ('FieldDecl', 'VarDecl'):
+                return None, None, False, c      # call through a function pointer member
             return md, kids(c)[0], bool(c.get('isArrow')), c
         if c.get('kind') == 'CXXPseudoDestructorExpr':
             return {'kind': 'pseudo_dtor'}, None, False, c
@@ -974,7 +1062,7 @@ class ExprMixin:
         elif obj is not None:
             oe = self.expr(obj, discard=True)    # static member called through an object
         argv += self.call_args(f, args, n)
-        ft = L.ty(full['type'])
+        ft = L.fn_type(full)
         return self.finish_call('%s(%s)' % (f.cname, ', '.join(argv)), n, dest, ft[1], argv=argv, fname=f.cname)
 
     def finish_call(self, text, n, dest, ret_t, argv=None, fname=None):
@@ -1011,8 +1099,10 @@ class ExprMixin:
                                                                                       'memmove', 'memcmp', 'strcmp',
                                                                                       'abort', 'strncmp', 'strnlen'):
             return self.builtin_call(n, name, args, dest)
+        if obj is None and n.get('kind') == 'CXXOperatorCallExpr' and args and \
+                'atomic' in args[0].get('type', {}).get('qualType', ''):
+            return self.atomic_call(n, name, args[0], False, args[1:])
         if obj is not None:
-            ot = self.ty(obj)
             ots = (obj.get('type', {}).get('desugaredQualType') or obj.get('type', {}).get('qualType', ''))
             if 'atomic' in ots or 'atomic' in obj.get('type', {}).get('qualType', ''):
                 return self.atomic_call(n, name, obj, arrow, args)
@@ -1095,9 +1185,29 @@ class ExprMixin:
         return E('%s(%s)' % (cname, ', '.join(argv)))
 
     def ex_AtomicExpr(self, n):
-        name = n.get('name', '')
-        argv = [self.expr(a).s for a in kids(n) if a]
-        return E('FRGV_%s(%s)' % (name.lstrip('_'), ', '.join(argv)))
+        """__atomic_* builtins: clang's JSON drops the builtin's name, so it is read back from the source"""
+        from .astload import source_text, spellloc
+        f, l, off = spellloc(n.get('range', {}).get('begin'))
+        name = n.get('name')
+        if not name and f and off is not None:
+            m = re.match(rb'[A-Za-z_0-9]+', source_text(f, off, off + 64))
+            name = m.group(0).decode() if m else None
+        if not name or not name.startswith('__atomic_'):
+            self.err(n, 'atomic builtin with unknown name %r' % name)
+        a = [self.expr(c).s for c in kids(n) if c]
+        op = name[len('__atomic_'):]
+        # sub-expression order in the AST: ptr, order, [val1], [order_fail], [val2], [weak]
+        if op in ('load_n',):
+            return E('FRGV_ATOMIC_LOAD(%s, %s)' % (a[0], a[1]))
+        if op in ('store_n',):
+            return E('FRGV_ATOMIC_STORE(%s, %s, %s)' % (a[0], a[2], a[1]))
+        if op in ('exchange_n',):
+            return E('FRGV_ATOMIC_EXCHANGE(%s, %s, %s)' % (a[0], a[2], a[1]))
+        if op in ('fetch_add', 'fetch_sub', 'fetch_or', 'fetch_and'):
+            return E('FRGV_ATOMIC_%s(%s, %s, %s)' % (op.upper(), a[0], a[2], a[1]))
+        if op in ('compare_exchange_n',):
+            return E('FRGV_ATOMIC_COMPARE_EXCHANGE_STRONG(%s, %s, %s, %s, %s)' % (a[0], a[2], a[4], a[1], a[3]))
+        self.err(n, 'atomic builtin %s' % name)
 
     def atomic_call(self, n, name, obj, arrow, args):
         oe = self.expr(obj, want_lvalue=True)
